@@ -40,6 +40,11 @@ namespace BitSerializer::Detail
 			return true;
 		}
 
+		if (pos != mStreamPos && mStream.eof())
+		{
+			// Need to reset EOF (it also sets fail bit) to be able to rewind the stream
+			mStream.clear();
+		}
 		if (pos == mStreamPos || !mStream.seekg(static_cast<std::streamoff>(pos)).fail())
 		{
 			mStreamPos = pos;
